@@ -58,3 +58,60 @@ MUTATIONS = [
       "\tif (height(an->left) > height(an->right)) {\n\t\tvictim = an->left;",
       "\tif (height(an->left) >= height(an->right) && an->left != NULL) {\n\t\tvictim = an->left;")]),
 ]
+
+
+def _main():
+    """python3 lib/mutations_c16.py [--tier quick] [--only a,b] [--jobs 3]
+    Same procedure as bin/mut-test, for this list only."""
+    import argparse, concurrent.futures as cf, os, shutil, subprocess, tempfile, time
+    here = os.path.dirname(os.path.abspath(__file__))
+    ap = argparse.ArgumentParser()
+    ap.add_argument("--tier", default="quick")
+    ap.add_argument("--only", default=None)
+    ap.add_argument("--jobs", type=int, default=3)
+    a = ap.parse_args()
+    muts = [m for m in MUTATIONS if not a.only or m["name"] in a.only.split(",")]
+
+    def one(m):
+        d = tempfile.mkdtemp(prefix="mut-", dir="/tmp")
+        try:
+            shutil.copytree("/repo/src", os.path.join(d, "src"),
+                            ignore=shutil.ignore_patterns("*.o", "*.lo", "*.la", ".libs", ".deps"))
+            shutil.copy("/repo/config.h", os.path.join(d, "config.h"))
+            for fn, old, new in m["edits"]:
+                p = os.path.join(d, "src", fn)
+                s = open(p).read()
+                if s.count(old) != 1:
+                    return (m["name"], "ERROR pattern occurs %d times" % s.count(old), "", 0, "")
+                open(p, "w").write(s.replace(old, new))
+            env = dict(os.environ, VERIF_REPO=d, VERIF_EVID_DIR=os.path.join(d, "evid"),
+                       VERIF_OUT_DIR=os.path.join(d, "out"))
+            t0 = time.time()
+            r = subprocess.run([os.path.join(here, "..", "bin", "check"), "C16", "--tier", a.tier], env=env,
+                               stdout=subprocess.PIPE, stderr=subprocess.STDOUT, text=True)
+            viol = [l for l in r.stdout.splitlines() if l.startswith("VIOLATION")]
+            drift = any(l.startswith("DRIFT") for l in r.stdout.splitlines())
+            status = "CAUGHT" if r.returncode == 1 and viol else ("clean" if r.returncode == 0 else "ERROR rc=%d" % r.returncode)
+            sigs = ";".join(sorted(set(v.split("#")[1].strip().split()[0] for v in viol if "#" in v)))
+            # replay of the first recorded violation must reproduce it
+            rp = ""
+            if viol:
+                path = viol[0].split("replay=")[1].split()[0]
+                r2 = subprocess.run([os.path.join(here, "..", "bin", "check"), "C16", "--replay", path], env=env,
+                                    stdout=subprocess.PIPE, stderr=subprocess.STDOUT, text=True)
+                rp = "replay:rc=%d" % r2.returncode
+            return (m["name"], status, sigs + (" +DRIFT" if drift else ""), time.time() - t0,
+                    rp if not status.startswith("ERROR") else r.stdout[-1500:])
+        finally:
+            shutil.rmtree(d, ignore_errors=True)
+    bad = 0
+    with cf.ThreadPoolExecutor(a.jobs) as ex:
+        for m, res in zip(muts, ex.map(one, muts)):
+            exp = "clean" if m.get("benign") else "CAUGHT"
+            print("%-30s %-8s (expected %s) %4.0fs %s %s" % (res[0], res[1], exp, res[3], res[2], res[4]), flush=True)
+            bad += res[1] != exp
+    print("%d mutations, %d unexpected" % (len(muts), bad))
+
+
+if __name__ == "__main__":
+    _main()
